@@ -77,6 +77,8 @@ Proof.
        try match goal with E : io _ = _ |- _ => rewrite ?E; simpl end; intros Hc Hw'.
   all: simpl in HJw, HJr.
   all: try match goal with H : closed _ = true |- _ => simpl in H; congruence end.
+  all: try (right; left; reflexivity).
+  all: try (right; left; destruct Hw' as [Hx|[Hx|Hx]]; [left|right;left|right;right]; (split; [exact Hx|reflexivity]); fail).
   all: try (right; left; tauto).
   all: try (right; left; intuition (try lia; try congruence); fail).
   all: try (destruct Hw' as (Ew & Ec & En & Et); rewrite ?Et; simpl; tauto).
